@@ -327,6 +327,8 @@ def h_float_half(field):
         ctx.assume(-80 <= n <= 80)
         ctx.assume(-3 <= other <= 3)
         n, other = ctx.concrete(n), ctx.concrete(other)
+        if ctx.symbolic:
+            return None          # all inputs are pinned: the check itself runs in the native replay of this path's witness
         with ctx.untraced():
             v = n + 0.5
             kw = {field: v}
